@@ -183,3 +183,73 @@ func zzC13dConcurrentWriters() {
 	}
 	vf.Reach("end")
 }
+
+// zzExclLink hands out one message writer at a time, as the WebSocket libraries do: Writer blocks
+// while another message is being written.
+type zzExclLink struct {
+	zzLink
+	mu sync.Mutex
+}
+
+type zzExclWriter struct {
+	zzMsgWriter
+	l *zzExclLink
+}
+
+func (w *zzExclWriter) Close() error {
+	err := w.zzMsgWriter.Close()
+	w.l.mu.Unlock()
+	return err
+}
+
+func (l *zzExclLink) Writer(context.Context, MessageType) (io.WriteCloser, error) {
+	l.mu.Lock()
+	return &zzExclWriter{zzMsgWriter: zzMsgWriter{dst: l.out}, l: l}, nil
+}
+
+// C13.d2: two (or three) writers on one context-takeover transport under every schedule within a
+// deviation budget: whatever order the writes take effect in, the peer decodes every message, each
+// exactly once, and both windows stay identical.
+func zzC13d2WritersAnySchedule() {
+	cc := compress.Config{Enable: true, Level: 1, DisableContextTakeover: false, WindowBits: 2}
+	var ab, ba [][]byte
+	np := NegotiationParams{}
+	lv, wb := cc.Level, cc.WindowBits
+	np.Compress = cc.Type()
+	np.CompressLevel = &lv
+	np.CompressWindowBits = &wb
+	a := New(Config{Conn: &zzExclLink{zzLink: zzLink{out: &ab, in: &ba}}, CompressConfig: cc, NegotiationParams: np})
+	b := New(Config{Conn: &zzLink{out: &ba, in: &ab}, CompressConfig: cc, NegotiationParams: np})
+	n := 2 + vf.Choose("writers", 2)
+	msgs := [][]byte{{1, 1, 1}, {2, 2}, {3, 3, 3, 3, 3}}
+	vf.Deviations(2)
+	done := 0
+	var errs [3]error
+	for i := 0; i < n; i++ {
+		i := i
+		go func() { errs[i] = a.Write(msgs[i]); done++ }()
+	}
+	vf.Settle()
+	vf.Deviations(0)
+	vf.Assert("all-writes-return", done == n && errs[0] == nil && errs[1] == nil && errs[2] == nil)
+	vf.Assert("one-frame-per-message", len(ab) == n)
+	seen := [3]int{}
+	for i := 0; i < n; i++ {
+		g, err := b.Read()
+		vf.Assert("peer-decodes-every-frame", err == nil)
+		if err != nil {
+			return
+		}
+		hit := false
+		for k := 0; k < n; k++ {
+			if zzBEq(g, msgs[k]) {
+				seen[k]++
+				hit = true
+			}
+		}
+		vf.Assert("a-written-message-unchanged", hit)
+	}
+	vf.Assert("each-message-exactly-once", seen[0] == 1 && seen[1] == 1 && (n == 2 || seen[2] == 1))
+	vf.Assert("windows-identical", zzBEq(a.writeWindowBuf.Bytes(), b.readWindowBuf.Bytes()))
+	vf.Reach("end")
+}
